@@ -37,7 +37,19 @@ pub fn gen_executor(rng: &mut Rng, independent_only: bool) -> Executor {
             };
             let timer = k == 0 && rng.chance(1, 3);
             idx.push(cbs.len());
-            cbs.push(Cb { wcet, timer, prio: 0 });
+            // stand-alone callbacks may come with a cost curve: c(1) = wcet, sub-additive, positive increments
+            // (every instance executes for at least one slot in the executor model)
+            let cost_curve = if len == 1 && wcet >= 2 && rng.chance(1, 2) {
+                let mut c = crate::model::cost::gen_cumulative(rng, 4, wcet);
+                let up = wcet - c[0];
+                for x in c.iter_mut() {
+                    *x += up;
+                }
+                if c.len() >= 2 { Some(c) } else { None }
+            } else {
+                None
+            };
+            cbs.push(Cb { wcet, timer, prio: 0, cost_curve });
         }
         chains.push(Chain { source, cbs: idx });
     }
@@ -51,6 +63,11 @@ pub fn gen_executor(rng: &mut Rng, independent_only: bool) -> Executor {
 
 fn rbf(arr: &Arr, c: u64) -> Dem {
     Dem::Rbf(arr.clone(), Cost::Scalar(c))
+}
+
+/// Demand of one callback, with its cost curve if it has one.
+fn rbf_cb(arr: &Arr, cb: &Cb) -> Dem {
+    Dem::Rbf(arr.clone(), cb.cost())
 }
 
 /// The analysis problems the executor gives rise to: (problem, what is measured).
@@ -69,24 +86,24 @@ pub fn problems(ex: &Executor, limit: u64) -> Vec<(RosProblem, Measured, bool)> 
         let (ci, pos) = ex.locate(i);
         if cb.timer {
             // higher-priority timers interfere; everything else can block once (non-preemptive)
-            let hp: Vec<Dem> = (0..ex.cbs.len()).filter(|j| *j != i && ex.cbs[*j].timer && ex.cbs[*j].prio < cb.prio).map(|j| rbf(src_of(j), ex.cbs[j].wcet)).collect();
+            let hp: Vec<Dem> = (0..ex.cbs.len()).filter(|j| *j != i && ex.cbs[*j].timer && ex.cbs[*j].prio < cb.prio).map(|j| rbf_cb(src_of(j), &ex.cbs[j])).collect();
             let blocking = (0..ex.cbs.len())
                 .filter(|j| *j != i && !(ex.cbs[*j].timer && ex.cbs[*j].prio < cb.prio))
                 .map(|j| ex.cbs[j].wcet - 1)
                 .max()
                 .unwrap_or(0);
             out.push((
-                RosProblem::Timer { sup: ex.sup, default_inverse: false, own: rbf(src_of(i), cb.wcet), interf: Dem::Aggregate(hp), blocking, limit },
+                RosProblem::Timer { sup: ex.sup, default_inverse: false, own: rbf_cb(src_of(i), cb), interf: Dem::Aggregate(hp), blocking, limit },
                 Measured::Callback(i),
                 false,
             ));
         } else if ex.chains[ci].cbs.len() == 1 {
             // stand-alone polled callback: everything else interferes
-            let others: Vec<Dem> = (0..ex.cbs.len()).filter(|j| *j != i).map(|j| rbf(src_of(j), ex.cbs[j].wcet)).collect();
+            let others: Vec<Dem> = (0..ex.cbs.len()).filter(|j| *j != i).map(|j| rbf_cb(src_of(j), &ex.cbs[j])).collect();
             // needs the chained callbacks' activations to respect the curves assumed here
             let needs_compliance = ex.chains.iter().any(|c| c.cbs.len() > 1);
             out.push((
-                RosProblem::PollingPoint { sup: ex.sup, default_inverse: false, own: rbf(src_of(i), cb.wcet), interf: Dem::Slice(others), limit },
+                RosProblem::PollingPoint { sup: ex.sup, default_inverse: false, own: rbf_cb(src_of(i), cb), interf: Dem::Slice(others), limit },
                 Measured::Callback(i),
                 needs_compliance,
             ));
@@ -104,7 +121,7 @@ pub fn problems(ex: &Executor, limit: u64) -> Vec<(RosProblem, Measured, bool)> 
             .iter()
             .enumerate()
             .filter(|(k, _)| *k != ci)
-            .map(|(_, o)| rbf(&o.source, o.cbs.iter().map(|c| ex.cbs[*c].wcet).sum()))
+            .map(|(_, o)| if o.cbs.len() == 1 { rbf_cb(&o.source, &ex.cbs[o.cbs[0]]) } else { rbf(&o.source, o.cbs.iter().map(|c| ex.cbs[*c].wcet).sum()) })
             .collect();
         out.push((
             RosProblem::Chain {
@@ -277,6 +294,12 @@ impl Monitor for C04 {
                 if worst[k] == r {
                     rep.count("bound_attained", 1);
                 }
+                if ex.cbs.iter().any(|c| c.cost_curve.is_some()) {
+                    rep.count("bounds_checked_in_executors_with_cost_curve_callbacks", 1);
+                    if worst[k] == r {
+                        rep.count("bounds_attained_in_executors_with_cost_curve_callbacks", 1);
+                    }
+                }
                 rep.max("slack_between_bound_and_worst_observed", r - worst[k].min(r));
                 if (ex.sup != Sup::Dedicated || ex.cbs.len() >= 2) && worst[k] > own_demand[k] {
                     let mut w = ex.words();
@@ -417,7 +440,7 @@ pub fn gen_tiny_executor(rng: &mut Rng) -> (Executor, Vec<TinyCb>) {
         let t = rng.range(3, 9);
         let wcet = rng.range(1, 2);
         let timer = rng.chance(1, 3);
-        cbs.push(Cb { wcet, timer, prio: prios[k] });
+        cbs.push(Cb { wcet, timer, prio: prios[k], cost_curve: None });
         chains.push(Chain { source: Arr::Sporadic { t, j: 0 }, cbs: vec![k] });
         tiny.push(TinyCb { t, wcet, timer, prio: prios[k] });
     }
